@@ -28,7 +28,7 @@ class WorldC13(World):
     WALL = {'quick': 50, 'thorough': 560}
     STATE_CHANGING = ('mklist', 'new', 'attach', 'reorder', 'copy', 'reload')
     STATE_RULE = 'per species: (class, gas?, number of pressure adjustments, number of coverage models, shares its caller list)'
-    PROBES = ('gas-species-from-shared-list', 'nongas-after-gas-same-list', 'padj-disabled', 'padj-preattached', 'padj-in-dict-form', 'integer-temperatures',
+    PROBES = ('gas-species-from-shared-list', 'nongas-after-gas-same-list', 'padj-disabled', 'padj-preattached', 'padj-in-dict-form', 'integer-temperatures', 'attach-in-place',
               'array-T-with-cov', 'two-or-more-models', 'reload-with-cov', 'reload-cycles>=2', 'copy-then-attach',
               'per-species-coverage-block', 'shomate-with-models', 'nasa9-with-models', 'reorder-with-two')
     REAL = ('pmutt.empirical.EmpiricalBase / GasPressureAdj', 'pmutt.empirical.nasa.Nasa / Nasa9 / SingleNasa9',
@@ -111,7 +111,8 @@ class WorldC13(World):
         if kind == 'copy' and len(self.sp) >= 6:
             kind = 'eval'
         if kind == 'attach':
-            return {'c': c, 'op': 'attach', 'args': {'id': k, 'model': self._mk_model_desc(rng)}}
+            return {'c': c, 'op': 'attach', 'args': {'id': k, 'model': self._mk_model_desc(rng),
+                                                     'inplace': rng.random() < 0.4}}
         if kind == 'reorder':
             return {'c': c, 'op': 'reorder', 'args': {'id': k, 'how': rng.choice(['reverse', 'rotate'])}}
         if kind == 'copy':
@@ -230,8 +231,14 @@ class WorldC13(World):
             sp, r = self._get(a['id'])
             m = self._model(a['model'])
             cur = sp.misc_models
-            # the owner assigns a new list: unambiguous whether or not lists are shared
-            sp.misc_models = (list(cur) if cur is not None else []) + [m]
+            if a.get('inplace') and isinstance(cur, list) and not r.get('aliased'):
+                # species.misc_models.append(model): the list the species holds is its own (constructors copy what they
+                # are handed), so only this species changes
+                cur.append(m)
+                ctx.probe('attach-in-place')
+            else:
+                # the owner assigns a new list: unambiguous whether or not lists are shared
+                sp.misc_models = (list(cur) if cur is not None else []) + [m]
             r['models'] = r['models'] + [dict(a['model'])]
             r['from_list'] = None
             if r.get('copied'):
@@ -258,6 +265,8 @@ class WorldC13(World):
             new = self.real(copy.deepcopy if a['deep'] else copy.copy, sp, _what='copy')
             self.sp[a['new']] = new
             self.bare[a['new']] = self.bare[a['id']]
+            if not a['deep']:
+                r['aliased'] = True        # copy.copy shares the list object: that is the caller's choice, not pMuTT's
             self.sref[a['new']] = dict(r, models=list(r['models']), copied=True,
                                        from_list=None if a['deep'] else r['from_list'])
             out = a['new']
